@@ -404,9 +404,9 @@ def build(spec, log, asynchronous, consumer_modes=None, faults=None, wrap_fn=Non
         elif k == "buffer":
             s = ups[0].buffer(p["n"])
         elif k == "delay":
-            s = ups[0].delay(p["i"])
+            s = ups[0].delay(p.get("i_str", p["i"]))
         elif k == "rate_limit":
-            s = ups[0].rate_limit(p["i"])
+            s = ups[0].rate_limit(p.get("i_str", p["i"]))
         elif k == "map_async":
             j = Jobs(log, i, FUNCS[p["f"]], fail_at=faults.get(i, ()))
             b.jobs[i] = j
